@@ -466,8 +466,8 @@ def shares_key(rows):
 
 def plan(tier):
     k = 10 if tier == 'quick' else 16
-    specs = [{'kind': 'tables', 'n': 1100 if tier == 'quick' else 30000, 'k': i} for i in range(k)]
-    specs += [{'kind': 'csv', 'n': 1500 if tier == 'quick' else 30000, 'k': i} for i in range(2 if tier == 'quick' else 8)]
+    specs = [{'kind': 'tables', 'n': 3000 if tier == 'quick' else 30000, 'k': i} for i in range(k)]
+    specs += [{'kind': 'csv', 'n': 3000 if tier == 'quick' else 30000, 'k': i} for i in range(2 if tier == 'quick' else 8)]
     return specs
 
 
